@@ -45,3 +45,8 @@ chk("C01", "model_checking",
     "Every bounded archive is read by every sequential reader and compared with the specification's scan; every store writer's payload (all Store.tla histories) is compared byte-for-byte with the reference encoding.",
     "Exhaustive within the archive and store bounds. " + TB,
     "TLA+ archive/scan operators + replay into all readers and writers", "DESIGN.md §3 C01")
+chk("C11", "model_checking",
+    "Index.tla defines the canonical serial form and the lookups as functions of the record multiset; TLC checks order independence over all permutations; every load order is replayed on both codecs "
+    "(determinism over 8 serializations, canonical bucket/entry order, byte count, round trip, lookups, iteration); flattened vs regenerated indexes are compared on every finished file of the Store graphs.",
+    "Exhaustive within: load sequences <= 3 (4) over 10 records. " + TB,
+    "TLA+ canonical-form spec + TLC load orders replayed on the index codecs", "DESIGN.md §3 C11")
